@@ -217,8 +217,10 @@ class C04(TrainCase):
 
 class C05(TrainCase):
     pid = 'C05'
-    gen_kw = dict(restarts=0.3, extras=0.7, scheduler=0.4, callables=0.5,
-                  max_ops=12)
+    gen_kw = dict(restarts=0.3, extras=0.7, scheduler=0.5, callables=0.5,
+                  max_ops=12,
+                  monitors={'read_factors': 0.4, 'memory': 0.3, 'twin': 0.1,
+                            'read_hps': 0.7})
     expected_probes = ['steps_stale', 'steps_no_factor_update',
                        'callable_hp_evaluations', 'restarts',
                        'sched_steps_checked', 'eval_pass',
